@@ -784,6 +784,72 @@ fn unique_names(m: &Module) {
     }
 }
 
+/// the parts of a module that have no name: A2ML, MOD_PAR, MOD_COMMON, IF_DATA, USER_RIGHTS, VARIANT_CODING.
+/// Presence in A / B is chosen independently; A's parts are kept unchanged, parts that only B has are taken over.
+pub(crate) fn h_merge_unnamed_parts() {
+    let parts_a = vrt_choice(4);      // bit 0: A has the optional blocks, bit 1: A has IF_DATA / USER_RIGHTS
+    let parts_b = 1 + vrt_choice(3);  // B has at least one of the two groups
+    let head = "ASAP2_VERSION 1 71 /begin PROJECT p \"\" /begin MODULE m \"\"\n";
+    let build = |who: &str, parts: u32| -> String {
+        let mut t = String::from(head);
+        if parts & 1 == 1 {
+            t.push_str("/begin A2ML block \"IF_DATA\" taggedunion { \"X\" uint; \"Y\" uint; };\n/end A2ML\n");
+            t.push_str("/begin MOD_PAR \"par "); t.push_str(who); t.push_str("\" VERSION \"v"); t.push_str(who); t.push_str("\" /end MOD_PAR\n");
+            t.push_str("/begin MOD_COMMON \"common "); t.push_str(who); t.push_str("\" BYTE_ORDER MSB_LAST /end MOD_COMMON\n");
+            t.push_str("/begin VARIANT_CODING VAR_SEPARATOR \"."); t.push_str(who); t.push_str("\" /end VARIANT_CODING\n");
+        }
+        if parts & 2 == 2 {
+            t.push_str("/begin IF_DATA X "); t.push_str(if who == "A" { "1" } else { "2" }); t.push_str(" /end IF_DATA\n");
+            t.push_str("/begin USER_RIGHTS user_"); t.push_str(who); t.push_str(" /end USER_RIGHTS\n");
+        }
+        t.push_str("/end MODULE /end PROJECT");
+        t
+    };
+    let mut a = load_ok(&build("A", parts_a));
+    let mut b = load_ok(&build("B", parts_b));
+    let a_before = a.clone();
+    let b_before = b.clone();
+    a.merge_modules(&mut b);
+    let res = &a.project.module[0];
+    let am = &a_before.project.module[0];
+    let bm = &b_before.project.module[0];
+    // A's parts are unchanged
+    if am.a2ml.is_some() { vrt_check(res.a2ml == am.a2ml, "C08 A2ML of A is unchanged by the merge"); }
+    if am.mod_common.is_some() { vrt_check(res.mod_common == am.mod_common, "C08 MOD_COMMON of A is unchanged by the merge"); }
+    if am.variant_coding.is_some() { vrt_check(res.variant_coding == am.variant_coding, "C08 VARIANT_CODING of A is unchanged by the merge"); }
+    if let (Some(rp), Some(ap)) = (&res.mod_par, &am.mod_par) {
+        vrt_check(rp.comment == ap.comment && rp.version == ap.version, "C08 MOD_PAR of A keeps its own content");
+    }
+    for e in am.if_data.iter() { vrt_check(res.if_data.iter().any(|x| x == e), "C08 IF_DATA of A is kept"); }
+    for e in am.user_rights.iter() { vrt_check(res.user_rights.iter().any(|x| x == e), "C08 USER_RIGHTS of A is kept"); }
+    // parts that only B has are taken over
+    if am.a2ml.is_none() { vrt_check(res.a2ml == bm.a2ml, "C08 A2ML that only B has is taken over"); }
+    if am.mod_par.is_none() { vrt_check(res.mod_par == bm.mod_par, "C08 MOD_PAR that only B has is taken over"); }
+    if am.mod_common.is_none() { vrt_check(res.mod_common == bm.mod_common, "C08 MOD_COMMON that only B has is taken over"); }
+    if am.variant_coding.is_none() { vrt_check(res.variant_coding == bm.variant_coding, "C08 VARIANT_CODING that only B has is taken over"); }
+    for e in bm.user_rights.iter() { vrt_check(res.user_rights.iter().any(|x| x == e), "C08 USER_RIGHTS of B is represented"); }
+    // IF_DATA is deliberately all-or-nothing (documented in merge_if_data): B's blocks are taken only if A has none
+    if am.if_data.is_empty() {
+        for e in bm.if_data.iter() { vrt_check(res.if_data.iter().any(|x| x == e), "C08 IF_DATA that only B has is taken over"); }
+    } else {
+        vrt_check(res.if_data == am.if_data, "C08 IF_DATA of A is unchanged by the merge");
+    }
+    // merging B a second time changes nothing
+    let once = a.clone();
+    let mut b2 = b_before.clone();
+    a.merge_modules(&mut b2);
+    vrt_check(a == once, "C08 merging the same module a second time changes nothing (unnamed parts)");
+    // the result can be written and loaded again. (Model equality after reload is only asserted when no IF_DATA is
+    // involved: an uninterpreted IF_DATA that ends up next to an A2ML block is interpreted on reload - the
+    // mechanism recorded as known finding D21.)
+    let out = a.write_to_string();
+    match load_from_string(&out, None, false) {
+        Ok((f2, _)) => { if parts_a & 2 == 0 && parts_b & 2 == 0 { vrt_check(f2 == a, "C08 the merged model survives write and reload"); } }
+        Err(_) => vrt_check(false, "C08 the merged model can be written and loaded"),
+    }
+    vrt_cover(true, "merge_unnamed_parts_end");
+}
+
 /// C09 second order: an element of B that is textually identical to A's element of the same name, but refers to a
 /// name that this merge renames, is not an identical twin - its reference must follow B's target.
 /// kind 0: TYPEDEF_AXIS twin (input quantity = conflicting MEASUREMENT), reached through B's INSTANCE.
@@ -1159,6 +1225,56 @@ pub(crate) fn h_include_paths() {
         Err(_) => vrt_check(false, "C16 a file whose include files exist in sub-directories loads"),
     }
     vrt_cover(true, "include_paths_end");
+}
+
+/// include files that contribute nothing or little: empty, only a comment, only white space; the directive as the
+/// last item of a block; one include file that holds several elements; an element between two directives
+pub(crate) fn h_include_edge_cases() {
+    let content = match vrt_choice(5) {
+        0 => "",
+        1 => "/* only a comment */\n",
+        2 => "\n  \n",
+        3 => "/begin MEASUREMENT m1 \"\" UBYTE NO_COMPU_METHOD 0 0 0 255\n/end MEASUREMENT\n/begin MEASUREMENT m2 \"\" UBYTE NO_COMPU_METHOD 0 0 0 255\n/end MEASUREMENT\n",
+        _ => "/begin UNIT u1 \"\" \"\" DERIVED\n/end UNIT\n// trailing comment\n",
+    };
+    let place = vrt_choice(3);   // 0: first item of MODULE, 1: between two elements, 2: last item of MODULE
+    let quoted = vrt_choice(2) == 1;
+    let e1 = "/begin COMPU_METHOD c1 \"\" IDENTICAL \"%6.3\" \"\"\n/end COMPU_METHOD\n";
+    let e2 = "/begin COMPU_METHOD c2 \"\" IDENTICAL \"%6.3\" \"\"\n/end COMPU_METHOD\n";
+    let head = "ASAP2_VERSION 1 71\n/begin PROJECT p \"\"\n/begin MODULE m \"\"\n";
+    let tail = "/end MODULE\n/end PROJECT\n";
+    let directive = if quoted { "/include \"part.a2l\"\n" } else { "/include part.a2l\n" };
+    let mut main = String::from(head);
+    let mut flat = String::from(head);
+    if place == 0 { main.push_str(directive); flat.push_str(content); }
+    main.push_str(e1); flat.push_str(e1);
+    if place == 1 { main.push_str(directive); flat.push_str(content); }
+    main.push_str(e2); flat.push_str(e2);
+    if place == 2 { main.push_str(directive); flat.push_str(content); }
+    main.push_str(tail); flat.push_str(tail);
+    vrt_fs_write("part.a2l", content.as_bytes());
+    let path = vrt_fs_write("main.a2l", main.as_bytes());
+    let (flat_file, _) = load_from_string(&flat, None, true).unwrap();
+    match load(&path, None, true) {
+        Ok((mut file, _)) => {
+            vrt_check(file == flat_file, "C16 loading through /include yields the same model as loading the flattened text (sparse include files)");
+            let out = file.write_to_string();
+            let path2 = vrt_fs_write("main2.a2l", out.as_bytes());
+            match load(&path2, None, true) {
+                Ok((file2, _)) => vrt_check(file2 == flat_file, "C16 the written file loads to an equal model from the same directory (sparse include files)"),
+                Err(_) => vrt_check(false, "C16 the written file loads again (sparse include files)"),
+            }
+            file.merge_includes();
+            let out3 = file.write_to_string();
+            vrt_check(!out3.contains("/include"), "C16 merge_includes makes the output self-contained (sparse include files)");
+            match load_from_string(&out3, None, true) {
+                Ok((file3, _)) => vrt_check(file3 == flat_file, "C16 the self-contained output loads to an equal model (sparse include files)"),
+                Err(_) => vrt_check(false, "C16 the self-contained output loads (sparse include files)"),
+            }
+        }
+        Err(_) => vrt_check(false, "C16 a file whose include file exists loads (sparse include files)"),
+    }
+    vrt_cover(true, "include_edge_cases_end");
 }
 
 /// a missing include file is an error naming the directive, not a panic or a partial result
@@ -1558,6 +1674,44 @@ pub(crate) fn h_ifdata_empty_sequence() {
     vrt_observe_bool(r.is_ok());
 }
 
+/// layout of list and array parameters: every item of an identifier list, a value-pair list, a long[5] array and a
+/// string list may stand on its own line or share the line; the writer must reproduce exactly that
+pub(crate) fn h_layout_sequences() {
+    // gap kinds: same line / next line / blank line in between; the continuation indent is the writer's own (2 per level)
+    let ka = vrt_choice(3);
+    let kb = vrt_choice(3);
+    let kc = vrt_choice(3);
+    fn gap(kind: u32, indent: usize) -> String {
+        let mut g = String::new();
+        match kind { 0 => g.push(' '), 1 => { g.push('\n'); for _ in 0..indent { g.push(' '); } } _ => { g.push_str("\n\n"); for _ in 0..indent { g.push(' '); } } }
+        g
+    }
+    let mut t = String::from("ASAP2_VERSION 1 71\n/begin PROJECT p \"\"\n  /begin MODULE m \"\"\n");
+    // identifier list (items at level 4)
+    t.push_str("    /begin FUNCTION f \"\"\n      /begin IN_MEASUREMENT"); t.push_str(&gap(ka, 8)); t.push_str("m1"); t.push_str(&gap(kb, 8)); t.push_str("m2"); t.push_str(&gap(kc, 8)); t.push_str("m3\n      /end IN_MEASUREMENT\n    /end FUNCTION\n");
+    // value pairs (struct sequence, level 3)
+    t.push_str("    /begin COMPU_VTAB cv \"\" TAB_VERB 2"); t.push_str(&gap(ka, 6)); t.push_str("1"); t.push_str(&gap(kb, 6)); t.push_str("\"one\""); t.push_str(&gap(kc, 6)); t.push_str("2 \"two\"\n    /end COMPU_VTAB\n");
+    // array parameter long[5] (level 4)
+    t.push_str("    /begin MOD_PAR \"\"\n      /begin MEMORY_LAYOUT PRG_DATA 0x100 0x20"); t.push_str(&gap(ka, 8)); t.push_str("-1"); t.push_str(&gap(kb, 8)); t.push_str("0x2"); t.push_str(&gap(kc, 8)); t.push_str("-3 4 5\n      /end MEMORY_LAYOUT\n    /end MOD_PAR\n");
+    // string list (level 5) and float list (level 5)
+    t.push_str("    /begin AXIS_PTS ap \"\" 0 NO_INPUT_QUANTITY rl 0 NO_COMPU_METHOD 3 0 10\n      /begin ANNOTATION\n        /begin ANNOTATION_TEXT"); t.push_str(&gap(ka, 10)); t.push_str("\"l1\""); t.push_str(&gap(kb, 10)); t.push_str("\"l2\"\n        /end ANNOTATION_TEXT\n      /end ANNOTATION\n    /end AXIS_PTS\n");
+    t.push_str("    /begin CHARACTERISTIC ch \"\" CURVE 0 rl 0 NO_COMPU_METHOD 0 255\n      /begin AXIS_DESCR FIX_AXIS NO_INPUT_QUANTITY NO_COMPU_METHOD 3 0 10\n        /begin FIX_AXIS_PAR_LIST"); t.push_str(&gap(ka, 10)); t.push_str("1.5"); t.push_str(&gap(kb, 10)); t.push_str("2"); t.push_str(&gap(kc, 10)); t.push_str("3000\n        /end FIX_AXIS_PAR_LIST\n      /end AXIS_DESCR\n    /end CHARACTERISTIC\n");
+    t.push_str("  /end MODULE\n/end PROJECT\n");
+    match load_from_string(&t, None, true) {
+        Ok((file, log)) => {
+            vrt_check(log.is_empty(), "C05 (harness) the sequence layout document is valid");
+            let out1 = file.write_to_string();
+            vrt_check(out1.trim() == t.trim(), "C05 line breaks between the items of list and array parameters are reproduced byte for byte");
+            match load_from_string(&out1, None, true) {
+                Ok((file2, _)) => vrt_check(file2 == file && file2.write_to_string() == out1, "C05 the layout of list parameters is stable over write and reload"),
+                Err(_) => vrt_check(false, "C05 the written document loads again"),
+            }
+        }
+        Err(_) => vrt_check(false, "C05 (harness) the sequence layout document loads in strict mode"),
+    }
+    vrt_cover(true, "layout_sequences_end");
+}
+
 /// multi-line block comments in front of tokens, with LF / CRLF / lone CR line ends: line bookkeeping
 /// (get_line_offset subtracts line numbers) must not underflow, and the layout must be stable over write + reload
 pub(crate) fn h_comment_layout_lineends() {
@@ -1594,6 +1748,50 @@ pub(crate) fn h_comment_layout_lineends() {
     }
     vrt_cover(true, "comment_layout_end");
 }
+
+/// entry point load_fragment (module content without PROJECT / MODULE), with no / a valid / an invalid built-in A2ML
+/// specification: lexeme soups at module level, including a premature `/end MODULE`, unbalanced /begin and /end,
+/// an /include of a missing file and the end of input. Must return Ok or Err: no panic, no hang.
+fn fragment_soup(n: usize) {
+    let mut t = String::new();
+    for _ in 0..n {
+        match vrt_choice(12) {
+            0 => t.push_str("/begin MEASUREMENT ms \"\" UBYTE NO_COMPU_METHOD 0 0 0 255 /end MEASUREMENT "),
+            1 => t.push_str("/begin "),
+            2 => t.push_str("/end "),
+            3 => t.push_str("/end MODULE "),
+            4 => t.push_str("UNIT "),
+            5 => t.push_str("0x1F "),
+            6 => t.push_str("\"s\" "),
+            7 => t.push_str("/* c */ "),
+            8 => t.push_str("// c\n"),
+            9 => t.push_str("/include nofile.a2l "),
+            10 => t.push_str("/begin A2ML block \"IF_DATA\" taggedunion { \"X\" uint; }; /end A2ML "),
+            _ => t.push_str("/begin IF_DATA X 1 /end IF_DATA "),
+        }
+    }
+    let spec = match vrt_choice(3) {
+        0 => None,
+        1 => Some(String::from("block \"IF_DATA\" taggedunion { \"X\" uint; };")),
+        _ => Some(String::from("block \"IF_DATA\" taggedunion { \"X\" ")),
+    };
+    let invalid_spec = matches!(&spec, Some(s) if !s.ends_with(';'));
+    let r = crate::load_fragment(&t, spec);
+    if invalid_spec {
+        vrt_check(r.is_err(), "C03 an invalid built-in A2ML specification is reported as an error value");
+    }
+    if let Ok(module) = &r {
+        // what was accepted is a module: it can be put into a file, written and loaded again
+        let mut file = crate::new();
+        file.project.module[0] = module.clone();
+        let out = file.write_to_string();
+        vrt_observe_bool(load_from_string(&out, None, false).is_ok());
+    }
+    vrt_observe_bool(r.is_ok());
+}
+pub(crate) fn h_fragment_soup_1() { fragment_soup(1); }
+pub(crate) fn h_fragment_soup_2() { fragment_soup(2); }
+pub(crate) fn h_fragment_soup_3() { fragment_soup(3); }
 
 /// uninterpreted IF_DATA (no A2ML definition): arbitrary lexeme soups inside the block, including comments, an embedded
 /// `/begin A2ML` section whose raw text is a single quote, unbalanced /begin and /end and the end of input.
